@@ -39,6 +39,7 @@ import time
 DEFAULT_NUM = "/repo/tm/num.py"
 VAL_BITS_CAP = 6000          # operands above this many bits are not used
 EXP_VAL_CAP = 2000           # value of an exponent subtree
+OP_TIMEOUT_S = 300.0         # watchdog only: no operation on the unchanged tree comes near it
 SMALL_MODS = list(range(1, 65))
 LARGE_MODS = ([2 ** k for k in (7, 8, 10, 12, 16)] + [3 ** k for k in (4, 5, 6, 7, 9)]
               + [10 ** k for k in (2, 3, 4, 5)] + [2 * 3 ** k for k in (3, 4, 5, 6, 7, 8)]
@@ -178,6 +179,13 @@ class Tracer:
         text = " ".join(self.lines[k - 1].strip() for k in range(rng[0], rng[1] + 1)) if line else ""
         return (code.co_qualname, rng[0], text)
 
+    def outermost(self):
+        """line of the last return event (the operator method itself), for the violation report"""
+        if not self.events:
+            return 0
+        _, code, off = self.events[-1][:3]
+        return self._line(code, off)
+
     def _line(self, code, off):
         p = self.pos.get(code)
         if p is None:
@@ -294,6 +302,7 @@ class Run:
         self.key_table = {}
         self.case_key = []
         self.case_line = []
+        self.case_top = []
         self.stats = {"ops": {}, "exceptions": {}, "operand_kinds": {}, "operand_depths": {},
                       "result_kinds": {}, "construct_ops": 0, "pair_ops": 0, "pairs": 0,
                       "equal_value_pairs": 0, "mixed_base_pairs": 0, "regenerated": 0,
@@ -316,7 +325,7 @@ class Run:
             exc = "RecursionError"
         except OpTimeout:
             exc = "HarnessTimeout"
-            signal.setitimer(signal.ITIMER_REAL, 20.0)
+            signal.setitimer(signal.ITIMER_REAL, OP_TIMEOUT_S)
         except Exception as e:      # noqa: BLE001   an exception is an allowed outcome
             exc = type(e).__name__
         st = self.stats
@@ -325,6 +334,7 @@ class Run:
         if sa is None or sb is None:
             return res, exc
         ln = 0
+        top = 0
         if exc is not None:
             st["exceptions"][exc] = st["exceptions"].get(exc, 0) + 1
             out = "!" + exc
@@ -338,6 +348,7 @@ class Run:
             st["result_kinds"][rk] = st["result_kinds"].get(rk, 0) + 1
             if tr:
                 q, ln, text = tr.origin()
+                top = tr.outermost()
                 kt = (op, q, text, S.kind(a), S.kind(b))
                 key = self.key_table.get(kt)
                 if key is None:
@@ -348,6 +359,7 @@ class Run:
         self.lines.append(f"numcheck {op} {modarg} | {sa} ; {sb} ; {out}")
         self.case_key.append(key)
         self.case_line.append(ln)
+        self.case_top.append(top)
         return res, exc
 
     # -- generator
@@ -612,6 +624,7 @@ def redo(run, path):
             run.lines.append(f"numcheck {op} - | {sa} ; {sb} ; !Rebuild{type(e).__name__}")
             run.case_key.append(-1)
             run.case_line.append(0)
+            run.case_top.append(0)
             continue
         if op in OPS:
             run.apply(op, a, b)
@@ -653,7 +666,7 @@ def main():
             a.pairs = 0
         while run.stats["pairs"] < a.pairs and tries < 20 * a.pairs + 100:
             tries += 1
-            signal.setitimer(signal.ITIMER_REAL, 20.0)
+            signal.setitimer(signal.ITIMER_REAL, OP_TIMEOUT_S)
             try:
                 run.pair()
             except OpTimeout:
@@ -674,7 +687,8 @@ def main():
         keys[i] = {"op": k[0], "function": k[1], "line_text": k[2], "shape": [k[3], k[4]]}
     with open(a.keys, "w") as f:
         json.dump({"seed": a.seed, "num_py": a.num_py, "trace": a.trace, "key_table": keys,
-                   "case_key": run.case_key, "case_line": run.case_line, "stats": run.stats}, f)
+                   "case_key": run.case_key, "case_line": run.case_line, "case_top_line": run.case_top,
+                   "stats": run.stats}, f)
     return 0
 
 
